@@ -456,6 +456,8 @@ func (r *resolver) findMatch(ctx context.Context, requirements []resolve.Version
 			if err != nil {
 				return resolve.Version{}, err
 			}
+			// Do not reorder the client's own slice.
+			versions = slices.Clone(versions)
 			resolve.SortVersions(versions)
 			slices.Reverse(versions)
 		}
